@@ -110,14 +110,21 @@ class Raw(str):
     """an argument that is already encoded"""
 
 
-def call_batch(fn: str, args: List[Any], chunk: int = 20000) -> List[Any]:
+class ModelTimeout(Exception):
+    pass
+
+
+def call_batch(fn: str, args: List[Any], chunk: int = 20000, timeout: int = 1800) -> List[Any]:
     """Evaluate model function `fn` on every argument (one driver process per chunk)."""
     fid = fn_ids()[fn]
     out: List[Any] = []
     for i in range(0, len(args), chunk):
         lines = "".join("%d %s\n" % (fid, enc(a)) for a in args[i:i + chunk])
-        p = subprocess.run([DRIVER], input=lines.encode(), stdout=subprocess.PIPE,
-                           stderr=subprocess.PIPE, timeout=1800, preexec_fn=_unlimit_stack)
+        try:
+            p = subprocess.run([DRIVER], input=lines.encode(), stdout=subprocess.PIPE,
+                               stderr=subprocess.PIPE, timeout=timeout, preexec_fn=_unlimit_stack)
+        except subprocess.TimeoutExpired:
+            raise ModelTimeout("model driver: %s took more than %d s" % (fn, timeout))
         if p.returncode != 0:
             raise RuntimeError("model driver failed: " + p.stderr.decode()[:500])
         res = p.stdout.decode().splitlines()
